@@ -186,7 +186,7 @@ impl<S: WebSocket, T: TimestampProvider> Task<S, T> {
                 // already have in the `frame_rx` before closing.
                 return;
             }
-            self.close_flow(flow_id, false);
+            self.close_dropped_flow(flow_id);
         }
         // None: only happens when the last sender (i.e. `dropped_flows_tx` in `Task`)
         // is dropped, which should not happen in normal circumstances because `Task::drop`
@@ -714,6 +714,37 @@ impl<S: WebSocket, T: TimestampProvider> Task<S, T> {
         let value = self.flows.write().remove(&flow_id);
         if let Some(removed) = value {
             self.close_flow_local(removed, flow_id, inhibit_rst);
+        } else {
+            debug!("flow_id {flow_id:08x} not found, nothing to close");
+        }
+    }
+
+    /// Close the flow whose `MuxStream` was dropped by the user.
+    ///
+    /// The notification carries only the flow ID, and that ID may have been freed and
+    /// reused while the user was still holding the old stream (e.g. the peer sent `Reset`
+    /// and then opened the same ID again), so only close the slot if it belongs to the
+    /// dropped stream.
+    #[tracing::instrument(skip_all, level = "debug", fields(flow_id = %format_args!("{flow_id:08x}")))]
+    fn close_dropped_flow(&self, flow_id: u32) {
+        let mut flows = self.flows.write();
+        let stale = match flows.get(&flow_id) {
+            // A dropped `MuxStream` releases its handle on `finish_sent` before notifying us
+            Some(FlowSlot::Established(stream_data)) => {
+                Arc::strong_count(&stream_data.finish_sent) > 1
+            }
+            // A pending request does not have a `MuxStream` yet
+            Some(FlowSlot::Requested(_) | FlowSlot::BindRequested(_)) => true,
+            None => false,
+        };
+        if stale {
+            debug!("flow_id {flow_id:08x} was reused, not closing the newer flow");
+            return;
+        }
+        let value = flows.remove(&flow_id);
+        drop(flows);
+        if let Some(removed) = value {
+            self.close_flow_local(removed, flow_id, false);
         } else {
             debug!("flow_id {flow_id:08x} not found, nothing to close");
         }
